@@ -68,6 +68,7 @@ namespace {
 // ---- mock decompressor
 struct MockPlan {
     size_t piece = 4096;
+    std::vector<size_t> plan;   // explicit piece sizes (then `piece` for the rest)
     long fail_at_read = -1;     // throw at this read() call (1-based)
     bool fail_at_close = false;
 };
@@ -87,7 +88,9 @@ public:
         g_mock_last_read_seq = tick();
         if (g_mock.fail_at_read > 0 && n == static_cast<uint64_t>(g_mock.fail_at_read)) throw InjectedFault{"injected decompressor read fault"};
         if (m_pos >= m_size) return std::string{};
-        const size_t k = std::min(g_mock.piece, m_size - m_pos);
+        size_t want = g_mock.piece;
+        if (n - 1 < g_mock.plan.size()) want = g_mock.plan[n - 1];
+        const size_t k = std::min(want ? want : 1, m_size - m_pos);
         std::string out{m_data + m_pos, k};
         m_pos += k;
         set_offset(m_pos);
@@ -252,7 +255,13 @@ void case_fault(uint64_t idx, vh::Rng& rng) {
     // ---- scenario parameters
     g_mock = MockPlan{};
     g_mock.piece = rng.pick(std::vector<size_t>{100, 1000, 4096, 100000});
-    const size_t npieces = (seed.bytes.size() + g_mock.piece - 1) / g_mock.piece;
+    // PBF: now and then the pieces end exactly at blob boundaries (each blob = one piece), so that
+    // an injected failure arrives while the parser is waiting for the next BlobHeader
+    if (fmt <= F_PBF_RAW && !seed.pbf_blobs.empty() && rng.coin()) {
+        size_t pos = 0;
+        for (const auto& b : seed.pbf_blobs) { const size_t end = b.first + b.second; g_mock.plan.push_back(end - pos); pos = end; }
+    }
+    const size_t npieces = g_mock.plan.empty() ? (seed.bytes.size() + g_mock.piece - 1) / g_mock.piece : g_mock.plan.size() + 1;
     bool via_mock = scenario == 1 || scenario == 2 || rng.coin();
     bool use_header = rng.coin();
     long stop_after = -1;            // reads before the consumer abandons (-1: read to the end)
@@ -264,7 +273,7 @@ void case_fault(uint64_t idx, vh::Rng& rng) {
         stop_after = static_cast<long>(rng.pick(std::vector<long>{0, 0, 1, 2, 3, 5, 8}));
         if (rng.chance(1, 6)) stop_after = -1;
     } else if (scenario == 1) {
-        g_mock.fail_at_read = 1 + static_cast<long>(rng.below(npieces + 1));
+        g_mock.fail_at_read = 1 + static_cast<long>(rng.below(npieces));   // 1..npieces: the last one is the read that would report the end of the data
         fault_class = "decompressor read throws";
     } else if (scenario == 2) {
         g_mock.fail_at_close = true;
@@ -407,7 +416,10 @@ void case_fault(uint64_t idx, vh::Rng& rng) {
     std::string evs; for (auto& e : out.events) { evs += e; evs += ' '; }
     if (out.data_after_error) vh::violation(std::string("data delivered after an error was reported: ") + FMT_NAME[fmt], cfg + " | " + evs);
     else if (out.read_after_error_did_not_throw) vh::violation(std::string("read() after a reported error did not throw: ") + FMT_NAME[fmt], cfg + " | " + evs);
-    if (scenario != 0 && read_to_end) {
+    // a fault only counts if it demonstrably fired
+    const bool fault_fired = scenario != 1 || g_mock_reads.load() >= static_cast<uint64_t>(g_mock.fail_at_read);
+    if (!fault_fired) vh::count("faults_not_fired(inconclusive)");
+    if (scenario != 0 && read_to_end && fault_fired) {
         // a truncated OPL/o5m/PBF file can be a shorter valid file (cut at a line,
         // dataset or blob boundary): only XML truncation must always be reported
         const bool must_report = !(fault_class == "input truncated" && fmt != F_XML);
